@@ -2,6 +2,7 @@
 from __future__ import annotations
 
 import ast
+import os
 import builtins as pybuiltins
 import z3
 
@@ -103,6 +104,9 @@ class Engine:
         self.loop_ord = 0
         self.attr_kind = attr_kind or default_attr_kind
         self.stats = {"paths": 0, "forks": 0, "merges": 0}
+        import time as _t
+        self.t_start = _t.time()
+        self.budget = float(os.environ.get("PYVC_SYMEX_BUDGET", "420"))
         self.bases = None
         self.incomplete = []  # loops explored only up to UNROLL iterations (no invariant available)
 
@@ -121,6 +125,18 @@ class Engine:
         return self.oblige(name, st, cond, kind="cover")
 
     # ------------------------------------------------------------------ forking helpers
+    def check_budget(self):
+        """Symbolic execution of one unit is given a wall-clock budget (PYVC_SYMEX_BUDGET seconds, default 420): code whose paths
+        cannot be merged (e.g. 65 independent undetermined tests in a row) is declared outside the modelled subset - UNDECIDED plus
+        the bounded search - instead of running for hours."""
+        import time as _t
+        if not hasattr(self, "t_start"):
+            self.t_start = _t.time()
+            self.budget = float(os.environ.get("PYVC_SYMEX_BUDGET", "420"))
+        if _t.time() - self.t_start > self.budget:
+            raise EngineUnsupported(f"path explosion: symbolic execution of this unit exceeded {int(self.budget)} s "
+                                    f"({self.stats['forks']} forks, {self.stats['paths']} paths)")
+
     def branch(self, st, cond):
         """cond: bool | z3 Bool -> list of (state, bool)."""
         if isinstance(cond, SBool):
@@ -137,6 +153,7 @@ class Engine:
         ff = feasible(st.pc, z3.Not(c))
         if ft and ff:
             self.stats["forks"] += 1
+            self.check_budget()
             s1 = st.fork()
             s1.assume(c)
             s2 = st
@@ -216,6 +233,7 @@ class Engine:
         return outs
 
     def exec_stmt(self, node, st):
+        self.check_budget()
         m = getattr(self, "st_" + type(node).__name__, None)
         if m is None:
             raise EngineUnsupported(f"statement {type(node).__name__} at line {node.lineno}")
@@ -936,6 +954,11 @@ class Engine:
                 for s2, v in self.ev(part.value, s):
                     if isinstance(v, RaiseExc):
                         nxt.append((s2, v))
+                    elif type(v).__name__ == "ExternalValue":
+                        # formatting a caller-supplied object runs its own code: it may return any text or raise
+                        s3 = s2.fork()
+                        nxt.append((s2, segs + ["<?>"]))
+                        nxt.append((s3, RaiseExc(ValueError, "formatting a caller-supplied value raised")))
                     else:
                         nxt.append((s2, segs + self.format_value(s2, v, spec, part.conversion)))
             outs = nxt
@@ -1064,6 +1087,10 @@ class Engine:
         """Execute the callee's real body (cross-check mode only)."""
         fi = extract.func(qualname)
         saved = (self.cur, self.cur_contract, self.loop_ord, getattr(self, "loop_ids", {}))
+        self.inline_depth = getattr(self, "inline_depth", 0) + 1
+        if self.inline_depth > (400 if self.inline else 12):
+            self.inline_depth -= 1
+            raise EngineUnsupported(f"recursion through {fi.qualname} without a contract to cut it (depth > 12)")
         params = list(fi.params)
         env = {}
         if fi.clsname and not fi.is_static:
@@ -1088,6 +1115,7 @@ class Engine:
                 outs.append((s, c.v if isinstance(c, Return) else c))
         finally:
             self.cur, self.cur_contract, self.loop_ord, self.loop_ids = saved
+            self.inline_depth -= 1
         return outs
 
     def call_qual(self, qualname, st, selfv, args, kwargs, site):
